@@ -12,6 +12,17 @@
 //    icp.match T n src.. m tgt..      find() capped at one iteration: raw nearest-neighbour pairs and the kept ones
 //    ransac.synth T sigma n (s.. t..)*n H..  RANSAC (SVD inner estimator) on an explicit correspondence set
 //    rr.real T sigma rounds n (s.. t..)*n    real draw() + countInliers() rounds; recomputed errors are printed
+//  sampler ops (single-phase, answered bit-exactly by the Lean driver: lean/RomeaModel/Sampler.lean):
+//    smp.new T                        a fresh RansacRandomCorrespondences<T> (default-seeded engine): engine state, scale_
+//    smp.scale lo*DIM hi*DIM          computeScale(min, max) on the current object: scale_ (SIZE components)
+//    smp.pts n (c*DIM)*n              the source point set handed to the following draws
+//    smp.corr m (src tgt weight)*m    the correspondence list handed to the following draws
+//    smp.draw k                       drawPoints(pts, corr, k) on the current object: drawn indexes (recovered from a tag in the
+//                                     unused squareDistanceBetweenPoints field) with their src:tgt, weights_ and cumSumWeights_
+//                                     after the call, engine state after the call
+//    smp.reset                        resetWeights_() (private, dead code in /repo): weights_ and cumSumWeights_
+//    smp.u k                          k values of uniformDistribution_(randomGenerator_) on the current object + engine state
+//  private members of RansacRandomCorrespondences are reached through explicit template instantiation (no hook in /repo).
 #include <algorithm>
 #include <fstream>
 #include <limits>
@@ -19,6 +30,7 @@
 #include "proto.hpp"
 #include "romea_core_common/regression/ransac/Ransac.hpp"
 #include "romea_core_common/regression/ransac/RansacIterations.hpp"
+#include "romea_core_common/regression/ransac/RansacRandomCorrespondences.hpp"
 #include "romea_core_common/transform/estimation/FindRigidTransformationByICP.hpp"
 #include "romea_core_common/transform/estimation/RansacRigidTransformationModel.hpp"
 
@@ -331,8 +343,162 @@ template<class P> static std::string rrReal(const Toks & t)
   ((ty) == "c2d" ? fn<Eigen::Vector2d>(t) : (ty) == "h2d" ? fn<HomogeneousCoordinates2d>(t) : \
    (ty) == "c3d" ? fn<Eigen::Vector3d>(t) : (ty) == "h3d" ? fn<HomogeneousCoordinates3d>(t) : throw vp::BadOp())
 
+// ------------------------------------------------------------------------------------------------ sampler
+// Access to private members without touching /repo: the arguments of an explicit template instantiation may name private
+// members ([temp.spec]); the instantiation defines a friend that hands the member pointer out.
+template<class Tag, auto M> struct Rob { friend auto get(Tag) { return M; } };
+// the member types are deduced (`auto`): a change of a member's declared type does not break the harness
+template<class P> struct TagWeights { friend auto get(TagWeights); };
+template<class P> struct TagCum { friend auto get(TagCum); };
+template<class P> struct TagEngine { friend auto get(TagEngine); };
+template<class P> struct TagDist { friend auto get(TagDist); };
+template<class P> struct TagScale { friend auto get(TagScale); };
+template<class P> struct TagReset { friend auto get(TagReset); };
+#define ROB_SAMPLER(P) \
+  template struct Rob<TagWeights<P>, &RansacRandomCorrespondences<P>::weights_>; \
+  template struct Rob<TagCum<P>, &RansacRandomCorrespondences<P>::cumSumWeights_>; \
+  template struct Rob<TagEngine<P>, &RansacRandomCorrespondences<P>::randomGenerator_>; \
+  template struct Rob<TagDist<P>, &RansacRandomCorrespondences<P>::uniformDistribution_>; \
+  template struct Rob<TagScale<P>, &RansacRandomCorrespondences<P>::scale_>; \
+  template struct Rob<TagReset<P>, &RansacRandomCorrespondences<P>::resetWeights_>;
+ROB_SAMPLER(Eigen::Vector2f) ROB_SAMPLER(Eigen::Vector2d) ROB_SAMPLER(Eigen::Vector3f) ROB_SAMPLER(Eigen::Vector3d)
+ROB_SAMPLER(HomogeneousCoordinates2f) ROB_SAMPLER(HomogeneousCoordinates2d)
+ROB_SAMPLER(HomogeneousCoordinates3f) ROB_SAMPLER(HomogeneousCoordinates3d)
+
+struct SmpBase
+{
+  virtual ~SmpBase() = default;
+  virtual std::string fresh() = 0;
+  virtual std::string scale(const Toks & t) = 0;
+  virtual std::string pts(const Toks & t) = 0;
+  virtual std::string corr(const Toks & t) = 0;
+  virtual std::string draw(const Toks & t) = 0;
+  virtual std::string resetW() = 0;
+  virtual std::string uni(const Toks & t) = 0;
+};
+
+template<class P> struct Smp : SmpBase
+{
+  using S = typename P::Scalar;
+  using R = RansacRandomCorrespondences<P>;
+  static constexpr int DIM = PointTraits<P>::DIM;
+  static constexpr int SIZE = PointTraits<P>::SIZE;
+  std::unique_ptr<R> obj;
+  PointSet<P> points;
+  std::vector<Correspondence> corrs;
+
+  std::string engine() const
+  {
+    std::ostringstream os; os << (*obj).*get(TagEngine<P>());        // libstdc++ prints the LCG state in decimal
+    return os.str();
+  }
+  std::string scaleStr() const
+  {
+    const auto & s = (*obj).*get(TagScale<P>());
+    std::string o;
+    for (int i = 0; i < SIZE; ++i) { o += " " + vp::fmtD(static_cast<double>(s[i])); }
+    return o;
+  }
+  std::string weightsStr() const
+  {
+    const auto & w = (*obj).*get(TagWeights<P>());
+    const auto & c = (*obj).*get(TagCum<P>());
+    std::string o = " w " + std::to_string(w.size());
+    for (auto x : w) { o += " " + vp::fmtD(static_cast<double>(x)); }
+    o += " c " + std::to_string(c.size());
+    for (auto x : c) { o += " " + vp::fmtD(static_cast<double>(x)); }
+    return o;
+  }
+  std::string fresh() override
+  {
+    obj.reset(new R());
+    return "ok eng " + engine() + " scale" + scaleStr();
+  }
+  std::string scale(const Toks & t) override
+  {
+    if (!obj || t.size() != 1 + 2 * static_cast<size_t>(DIM)) { throw vp::BadOp(); }
+    double lo[3] = {0, 0, 0}, hi[3] = {0, 0, 0};
+    for (int i = 0; i < DIM; ++i) { lo[i] = vp::parseD(t[1 + i]); hi[i] = vp::parseD(t[1 + DIM + i]); }
+    obj->computeScale(PT<P>::make(lo), PT<P>::make(hi));
+    return "scale" + scaleStr();
+  }
+  std::string pts(const Toks & t) override
+  {
+    if (t.size() < 2) { throw vp::BadOp(); }
+    size_t n = vp::parseU(t[1]);
+    if (t.size() != 2 + DIM * n) { throw vp::BadOp(); }
+    points.clear();
+    for (size_t k = 0; k < n; ++k) {
+      double c[3] = {0, 0, 0};
+      for (int d = 0; d < DIM; ++d) { c[d] = vp::parseD(t[2 + DIM * k + d]); }
+      points.push_back(PT<P>::make(c));
+    }
+    return "ok " + std::to_string(n);
+  }
+  std::string corr(const Toks & t) override
+  {
+    if (t.size() < 2) { throw vp::BadOp(); }
+    size_t m = vp::parseU(t[1]);
+    if (t.size() != 2 + 3 * m) { throw vp::BadOp(); }
+    std::vector<Correspondence> c;
+    for (size_t k = 0; k < m; ++k) {
+      size_t s = vp::parseU(t[2 + 3 * k]), g = vp::parseU(t[3 + 3 * k]);
+      double w = vp::parseD(t[4 + 3 * k]);
+      if (s >= points.size()) { throw vp::BadOp(); }             // the sampler indexes the point set unchecked
+      c.emplace_back(s, g, static_cast<double>(k), w);             // tag: position in the list (the sampler never reads it)
+    }
+    corrs.swap(c);
+    return "ok " + std::to_string(m);
+  }
+  std::string draw(const Toks & t) override
+  {
+    if (!obj || t.size() != 2) { throw vp::BadOp(); }
+    size_t k = vp::parseU(t[1]);
+    if (corrs.size() <= k) { throw vp::BadOp(); }                  // the asserted precondition of drawPoints
+    std::vector<Correspondence> d = obj->drawPoints(points, corrs, k);
+    std::string o = "idx " + std::to_string(d.size());
+    for (const auto & c : d) {
+      o += " " + std::to_string(static_cast<size_t>(c.squareDistanceBetweenPoints)) + ":" + std::to_string(c.sourcePointIndex) + ":" +
+        std::to_string(c.targetPointIndex);
+    }
+    return o + weightsStr() + " eng " + engine();
+  }
+  std::string resetW() override
+  {
+    if (!obj) { throw vp::BadOp(); }
+    ((*obj).*get(TagReset<P>()))();
+    return "reset" + weightsStr();
+  }
+  std::string uni(const Toks & t) override
+  {
+    if (!obj || t.size() != 2) { throw vp::BadOp(); }
+    size_t k = vp::parseU(t[1]);
+    if (k > 10000) { throw vp::BadOp(); }
+    std::string o = "u " + std::to_string(k);
+    auto & e = (*obj).*get(TagEngine<P>());
+    auto & u = (*obj).*get(TagDist<P>());
+    for (size_t i = 0; i < k; ++i) { o += " " + vp::fmtD(u(e)); }
+    return o + " eng " + engine();
+  }
+};
+
+static std::unique_ptr<SmpBase> smp;
+
+static SmpBase * makeSmp(const std::string & ty)
+{
+  if (ty == "c2d") { return new Smp<Eigen::Vector2d>(); }
+  if (ty == "c3d") { return new Smp<Eigen::Vector3d>(); }
+  if (ty == "h2d") { return new Smp<HomogeneousCoordinates2d>(); }
+  if (ty == "h3d") { return new Smp<HomogeneousCoordinates3d>(); }
+  if (ty == "c2f") { return new Smp<Eigen::Vector2f>(); }
+  if (ty == "c3f") { return new Smp<Eigen::Vector3f>(); }
+  if (ty == "h2f") { return new Smp<HomogeneousCoordinates2f>(); }
+  if (ty == "h3f") { return new Smp<HomogeneousCoordinates3f>(); }
+  throw vp::BadOp();
+}
+
 // ------------------------------------------------------------------------------------------------ protocol
-static void reset() { rc.reset(); rcType.clear(); }
+static void reset() { rc.reset(); rcType.clear(); smp.reset(); }
 
 static std::string handle(const Toks & t)
 {
@@ -383,6 +549,22 @@ static std::string handle(const Toks & t)
     std::string o = "kept " + std::to_string(k);
     for (size_t i = 0; i < k; ++i) { o += " " + fmtCorr(c[i]); }
     return o;
+  }
+  if (op == "smp.new" && t.size() == 2) {
+    // the point set and the correspondence list of the case survive a new object of the same type (fresh-object replays)
+    static std::string smpType;
+    if (!smp || smpType != t[1]) { smp.reset(makeSmp(t[1])); smpType = t[1]; }
+    return smp->fresh();
+  }
+  if (op.rfind("smp.", 0) == 0) {
+    if (!smp) { throw vp::BadOp(); }
+    if (op == "smp.scale") { return smp->scale(t); }
+    if (op == "smp.pts") { return smp->pts(t); }
+    if (op == "smp.corr") { return smp->corr(t); }
+    if (op == "smp.draw") { return smp->draw(t); }
+    if (op == "smp.reset" && t.size() == 1) { return smp->resetW(); }
+    if (op == "smp.u") { return smp->uni(t); }
+    throw vp::BadOp();
   }
   if (op == "c06.constants" && t.size() == 1) { return "constants"; }
   if (op == "icp.loop") { return "model-only"; }
